@@ -179,7 +179,16 @@ func runOnce(t *testing.T, job *Job, run uint64, rf *ReplayFile) (res RunResult,
 			default:
 				strategy = &simrt.Random{R: sr}
 			}
-			mask := c.CfgPick("mask", []string{"sync", "all", "pkg:pokertable", "pkg:syncsaga,open_game_manager", "pkg:seat_manager", "pkg:pokertable,actor"}, 40, 25, 15, 8, 6, 6)
+			mw := []int{40, 25, 15, 8, 6, 6}
+			switch {
+			case job.World == "actor":
+				mw = []int{25, 30, 5, 0, 0, 40} // statement-level points inside the actor package matter here
+			case job.World == "ogm":
+				mw = []int{30, 30, 0, 40, 0, 0}
+			case job.World == "seat":
+				mw = []int{40, 20, 0, 0, 40, 0}
+			}
+			mask := c.CfgPick("mask", []string{"sync", "all", "pkg:pokertable", "pkg:syncsaga,open_game_manager", "pkg:seat_manager", "pkg:pokertable,actor"}, mw...)
 			sch = simrt.New(strategy, st.Get("sched"), st.Get("maporder"))
 			sch.MapMode = c.CfgInt("mapmode", 0, 2)
 			sch.Mask = BuildMask(mask)
